@@ -234,7 +234,45 @@ def check_nosalt(case, ev):
     return None
 
 
-REPLAY = {"seeds": check_seeds, "history": check_history, "nosalt": check_nosalt}
+def check_nosalt_main(case, ev):
+    """Two salt-less runs through netconan.netconan.main in one process: each must report its own
+    generated salt (WARNING record) and be reproducible with it.  case: {opts, text}"""
+    import os
+    import shutil
+    import tempfile
+
+    from netconan.netconan import main
+
+    o = case["opts"]
+    pwd, ip, words, asn = o["features"]
+    d = tempfile.mkdtemp(prefix="vf-c13m-")
+    try:
+        with open(os.path.join(d, "in.cfg"), "w", encoding="utf-8", newline="") as fh:
+            fh.write(case["text"])
+        base = ["-i", os.path.join(d, "in.cfg")] + (["-p"] if pwd else []) + (["-a"] if ip else []) + (["-w", ",".join(o["words"])] if words else []) + (["-n", ",".join(o["asns"])] if asn else [])
+        ev.case(case, True, ["via-main"])
+        for k in (1, 2):
+            out1 = os.path.join(d, "out%d.cfg" % k)
+            with core.capture_logs(logging.WARNING) as recs:
+                _, exc = guarded(main, base + ["-o", out1])
+            if exc is not None:
+                return core.exc_finding(exc, case, "main/")
+            salts = [m for lv, m in recs if "salt" in m.lower()]
+            mm = re.search(r'"([^"]*)"', salts[0]) if salts else None
+            if not mm:
+                return Finding("nosalt/generated-salt-not-reported:%s" % ("first-run" if k == 1 else "later-run-in-the-same-process"), "run %d through main(): WARNING records %r" % (k, recs[:3]), case)
+            out2 = os.path.join(d, "re%d.cfg" % k)
+            _, exc = guarded(main, base + ["-o", out2, "-s", mm.group(1)])
+            if exc is not None:
+                return core.exc_finding(exc, case, "main/")
+            if open(out1, "rb").read() != open(out2, "rb").read():
+                return Finding("nosalt/reported-salt-does-not-reproduce-output", "run %d, salt %r" % (k, mm.group(1)), case)
+    finally:
+        shutil.rmtree(d, ignore_errors=True)
+    return None
+
+
+REPLAY = {"nosalt_main": check_nosalt_main, "seeds": check_seeds, "history": check_history, "nosalt": check_nosalt}
 
 # ---------------------------------------------------------------- generators
 
@@ -343,10 +381,15 @@ def t_nosalt(shard, nshards, seed, ev, known, n=100):
     return core.hyp_drive(_nosalt_case(), check_nosalt, n, seed, ev, known, check_name="nosalt")
 
 
+def t_nosalt_main(shard, nshards, seed, ev, known, n=30):
+    return core.hyp_drive(_nosalt_case(), check_nosalt_main, n, seed, ev, known, check_name="nosalt_main")
+
+
 def plan(tier):
     q = tier == "quick"
     return [
         Task("seeds", t_seeds, shards=4 if q else 16, n=40 if q else 600, seeds=(0, 1, 2, 3) if q else (0, 1, 2, 3, 4, 5, 6, 7, "random")),
         Task("history", t_history, shards=6 if q else 16, n=25 if q else 600),
         Task("nosalt", t_nosalt, shards=1 if q else 4, n=150 if q else 3000),
+        Task("nosalt_main", t_nosalt_main, shards=1 if q else 4, n=40 if q else 600),
     ]
